@@ -35,20 +35,39 @@ class DataflowMonitor(Monitor):
         self.prod = producers(workload)
 
     def init(self, ex):
-        return {"out": {}, "last": {}}
+        return {"out": {}, "last": {}, "ran": {}, "n": 0}
 
     def step(self, ex, tr, ms):
         v = []
         model = {k: dict(o) for k, o in ms["out"].items()}
         last = {k: dict(o) for k, o in ms.get("last", {}).items()}
+        ran, n = dict(ms.get("ran", {})), ms.get("n", 0)
         for (_seq, tbl, ident, old, new) in tr.audit:
             if tbl == "S" and new == "NOT_STARTED" and old is not None:
-                model[tr.post.labels.get(ident, ident)] = {}  # re-armed: a new iteration starts from nothing
+                lab_ = tr.post.labels.get(ident, ident)
+                model[lab_] = {}  # re-armed: a new iteration starts from nothing
+                # ... except for what the recorded defect leaves behind: the inherited copies in the stage's own context
+                kept = {k: x for k, x in tr.post.stages.get(lab_, {}).get("ctx", {}).items()
+                        if k in self.prod and not isinstance(x, list)}
+                last[lab_] = dict(last.get(lab_, {}), **kept)
         for e in tr.ledger:
             s = e["stage"]
             spec = self.wl.spec(s)
+            n += 1
             if spec is not None and spec.join == "AND":
                 v.extend(self.check_seen(tr, e, s, spec, model, last.get(s, {})))
+                # "as produced in the current loop iteration": whatever this execution inherits from an ancestor X was
+                # produced AFTER the latest run of every stage X itself depends on (no branch left over from an
+                # earlier iteration feeds a stage of the current one)
+                anc = self.wl.ancestors(s)
+                for x in anc:
+                    if x not in ran or self.wl.spec(x) is None:
+                        continue
+                    for t_ in self.wl.ancestors(x):
+                        if t_ in ran and ran[t_] > ran[x] and tr.pre.stages.get(x, {}).get("status") != "SKIPPED":
+                            v.append({"kind": "inherits-from-a-branch-of-an-earlier-iteration", "stage": s, "stale_ancestor": x,
+                                      "re_run_upstream": t_, "sig": "stale-branch"})
+            ran[s] = n
             model.setdefault(s, {}).update(e.get("out") or {})
             last[s] = {k: x for k, x in e["ctx"].items() if k in self.prod and not isinstance(x, list)}
         # a stage that has just finished publishes exactly what its executions of this arming produced
@@ -66,7 +85,7 @@ class DataflowMonitor(Monitor):
                 v.append({"kind": "finished-stage-publishes-other-than-it-produced", "stage": lab, "durable": durable,
                           "produced_this_iteration": want, "stale_keys": extra,
                           "sig": "published-differs:" + ("stale-key" if extra else "value")})
-        return {"out": model, "last": last}, v
+        return {"out": model, "last": last, "ran": ran, "n": n}, v
 
     def check_seen(self, tr, e, s, spec, model, prev_seen):
         v = []
@@ -261,7 +280,7 @@ def jobs(tier, seed):
     js = [{"label": "reducers|permutations", "reducers": 3 if tier == "quick" else 4}]
     js.append({"label": "fan_reducer|all-orders", "wl": wl("fan_reducer"), "budget": {}, "e2e": True})
     specs = [wl("chain3"), wl("diamond"), wl("own_ctx_diamond"), wl("own_ctx_mixed"), wl("jump_partial_outputs", 1),
-             wl("jump_partial_outputs", 2), wl("jump_self_partial", 2), wl("fan3"), wl("multitask"), wl("diamond_multitask"),
+             wl("jump_partial_outputs", 2), wl("jump_self_partial", 2), wl("jump_sibling_fanin", 1), wl("jump_sibling_fanin", 2), wl("fan3"), wl("multitask"), wl("diamond_multitask"),
              wl("jump_self", 2), wl("jump_cycle", 2, 2), wl("jump_cycle", 3, 2), wl("jump_cycle", 4, 1),
              wl("jump_side_fanin", 2), wl("jump_forward_diamond", 1), wl("continue_on_fail"), wl("skip_stage")]
     for spec in specs:
@@ -269,6 +288,13 @@ def jobs(tier, seed):
     for n in (2, 3, 4):
         for idx in range(len(W.dag_shapes(n))):
             js.append({"label": f"dag[{n},{idx}]|all-orders", "wl": wl("dag_workload", n, idx), "budget": {}})
+    # every loop body on 3-4 stages (single-root/single-sink DAGs, the sink jumping to the root once; both declaration
+    # orders): after the loop, and inside it, every stage sees the values of the CURRENT iteration
+    for n in (3, 4):
+        for idx in range(len(W.loop_body_shapes(n))):
+            for order in ("fwd", "rev"):
+                js.append({"label": f"loop body{n}#{idx} {order}|all-orders", "wl": wl("jump_dag_loop", n, idx, 1, None, order),
+                           "budget": {}})
     if tier == "thorough":
         for spec in specs:
             js.append({"label": f"{spec[0]}{spec[1]}|noack1", "wl": spec, "budget": {"noack": 1}, "max_states": 400000})
